@@ -61,6 +61,9 @@ fn real_main() {
     match cmd.as_str() {
         "explore" => {
             let root: Vec<usize> = arg("--root", "2,4").split(',').map(|x| x.parse().unwrap()).collect();
+            // one execution is a history of a handful of calls on buffers of a few bytes: 30 s of CPU time inside one means a call
+            // does not return (reported like a crash, with the history in the note)
+            oracle::sys::arm_hang_watchdog(10, 3);
             explore::RARE_LAST.store(std::env::args().any(|a| a == "--rare-last"), std::sync::atomic::Ordering::Relaxed);
             let shard: Vec<usize> = arg("--shard", "0/1").split('/').map(|x| x.parse().unwrap()).collect();
             let cfg = Cfg {
